@@ -59,10 +59,13 @@ Init == /\ patch \in {s \in SeqsUpTo(OpPool, MaxPatchLen) : s # <<>>}
         /\ hist = <<>>
 
 \* random walks: TLC computes initial states once, so the random patch is chosen by the first step
+\* a random element, drawn anew at every evaluation: the set mentions the state because TLC evaluates an expression
+\* without variables once and for all (a walk would repeat one choice for ever)
+Pick(S) == RandomElement(IF Len(hist) >= 0 THEN S ELSE {})
 InitSim == patch = <<>> /\ route = "document" /\ built = 0 /\ hist = <<>>
 ChooseSim == /\ patch = <<>>
-             /\ \E n \in {RandomElement(1..MaxPatchLen)}, r \in {RandomElement(Routes)} :
-                  /\ patch' = [i \in 1..n |-> RandomElement(OpPool)]
+             /\ \E n \in {Pick(1..MaxPatchLen)}, r \in {Pick(Routes)} :
+                  /\ patch' = [i \in 1..n |-> Pick(OpPool)]
                   /\ route' = r
                   /\ built' = IF r = "builder" THEN 0 ELSE n
              /\ UNCHANGED hist
@@ -80,10 +83,10 @@ AsDicts == /\ Len(hist) < MaxActs
            /\ UNCHANGED <<patch, route, built>>
 Next == (\E d \in Docs : Apply(d)) \/ AsDicts \/ AddOp
 NextSim == IF patch = <<>> THEN ChooseSim ELSE
-           \E c \in {RandomElement(1..5)} :
+           \E c \in {Pick(1..5)} :
              IF c = 1 THEN AsDicts
              ELSE IF c = 2 /\ built < Len(patch) THEN AddOp
-             ELSE \E d \in {RandomElement(Docs)} : Apply(d)
+             ELSE \E d \in {Pick(Docs)} : Apply(d)
 Spec == Init /\ [][Next]_vars
 
 \* ---- properties -------------------------------------------------------------
